@@ -196,13 +196,13 @@ fn split_lines(text: &str, multi: bool) -> Vec<String> {
 
 /// The text of a drawing for a table description `t`:
 /// {orient: "rows"|"cols", info: ""|name, infow: "narrow"|"equal", hp: marker, ins: [{expr, vals}], outs: [{name, vals}],
-///  label: text|null, anns: [name], rules: [{ins: [..], outs: [..], anns: [..]}], style: "tight"|"wide"|"multi", vals: bool}
+///  label: text|null, anns: [name], rules: [{ins: [..], outs: [..], anns: [..]}], style: "tight"|"wide"|"multi"|"multitight", vals: bool}
 pub fn draw_table(t: &J) -> String {
   let s = |v: &J| v.as_str().unwrap_or("").to_string();
   let style = s(&t["style"]);
-  let multi = style == "multi";
+  let multi = style == "multi" || style == "multitight";
   let (pad, centre) = match style.as_str() {
-    "tight" => (0, false),
+    "tight" | "multitight" => (0, false),
     "wide" => (2, true),
     _ => (1, false),
   };
